@@ -542,7 +542,9 @@ Fixpoint synth_run (l : layout) (casgs sasgs : list sasg) (env : list Z) (clk st
       let env' := fold_left (fun e p => set_nth (fst p) (snd p) e) sets env in
       asgs_apply l env' st casgs :: synth_run l casgs sasgs env' clk st r
   | SClk v :: r =>
-      let st' := if (clk =? 0) && (v =? 1) then asgs_apply l env (asgs_apply l env st casgs) sasgs else st in
+      (* only the clocked statements' bits are registers: the comb-driven bits of `st` stay at their init value,
+         so an element a dynamic comb index no longer selects falls back to init, not to a latched copy *)
+      let st' := if (clk =? 0) && (v =? 1) then asgs_apply l env st sasgs else st in
       asgs_apply l env st' casgs :: synth_run l casgs sasgs env v st' r
   end.
 Definition synth (l : layout) (tv : Z) (casgs sasgs : list sasg) (env0 : list Z) (steps : list sstep) : list Z :=
